@@ -325,6 +325,17 @@ func (c *fakeConn) Close() error {
 	return nil
 }
 
+// quicLikeConn has no Close method: like *quic.Conn it is ended with CloseWithError.
+type quicLikeConn struct {
+	addr   string
+	closed atomic.Bool
+}
+
+func (c *quicLikeConn) CloseWithError(code uint64, reason string) error {
+	c.closed.Store(true)
+	return nil
+}
+
 type recorder struct {
 	sc     *scenario
 	mu     sync.Mutex
@@ -1192,6 +1203,59 @@ func TestCheck(t *testing.T) {
 		nRand = 150000
 	}
 	r.Parallel("rand", nRand, func(i int, rng *mrand.Rand) { run("rand", i, randScenario(rng)) })
+
+	// Connection types without a Close() error method: ech/quic instantiates Dialer[*quic.Conn], whose only way to end
+	// a connection is CloseWithError. Two targets succeed 1 ms apart; the one that loses is established after the outcome.
+	{
+		r.ParallelW("noclose", 4, 1, func(i int, _ *mrand.Rand) {
+			var first, second *quicLikeConn
+			var derr error
+			bubbleErr := ""
+			func() {
+				defer func() {
+					if p := recover(); p != nil {
+						bubbleErr = fmt.Sprint(p)
+					}
+				}()
+				synctest.Test(t, func(t *testing.T) {
+					var mu sync.Mutex
+					var made []*quicLikeConn
+					d := &ech.Dialer[*quicLikeConn]{MaxConcurrency: 2 + i%2, ConcurrencyDelay: time.Millisecond, Timeout: time.Second,
+						DialFunc: func(ctx context.Context, network, addr string, tc *tls.Config) (*quicLikeConn, error) {
+							time.Sleep(10 * time.Millisecond) // established whether or not the outcome is decided meanwhile
+							c := &quicLikeConn{addr: addr}
+							mu.Lock()
+							made = append(made, c)
+							mu.Unlock()
+							return c, nil
+						}}
+					first, derr = d.Dial(context.Background(), "tcp", "10.0.0.1:443,10.0.0.2:443", nil)
+					synctest.Wait()
+					time.Sleep(time.Hour)
+					synctest.Wait()
+					mu.Lock()
+					for _, c := range made {
+						if c != first {
+							second = c
+						}
+					}
+					mu.Unlock()
+				})
+			}()
+			c := map[string]any{"connection_type": "has CloseWithError(code, reason) but no Close() error, like *quic.Conn", "bubble_error": bubbleErr}
+			r.Eval(fmt.Sprintf("noclose|%d", i))
+			switch {
+			case bubbleErr != "" || derr != nil || first == nil:
+				r.Inconclusive("noclose scenario did not run to its end: %v %s", derr, bubbleErr)
+			case second == nil:
+				r.Count("noclose_single_connection", 1)
+			case !second.closed.Load():
+				r.Violate("noclose", i, "leak:losing-connection-never-closed:type-without-Close-method", fmt.Sprintf("Dial returned the connection to %s; the connection to %s, established 1 ms later, was never closed (its type offers CloseWithError only)", first.addr, second.addr), c)
+			default:
+				r.Count("noclose_loser_closed", 1)
+			}
+		})
+	}
 
 	r.Count("scenarios", nScen.Load())
 	if n := nSkipped.Load(); n > 0 {
